@@ -246,7 +246,7 @@ pub extern "sysv64" fn memory_read_byte(areas: *const MemoryAreas, addr: u16) ->
     }
   }
   if addr == 0xffff { // Interrupt Mask
-    return memory_areas.io.interrupt_mask;
+    return memory_areas.io.interrupt_mask | memory_areas.io.interrupt_mask_upper;
   }
   // High RAM
   memory_areas.high_ram[addr as usize & 0x7f]
@@ -313,6 +313,8 @@ pub extern "sysv64" fn memory_write_byte(areas: *mut MemoryAreas, addr: u16, val
   }
   if addr == 0xffff { // Interrupt Mask
     memory_areas.io.interrupt_mask = value & 0x1f;
+    // the upper bits are not connected to any interrupt but can be read back
+    memory_areas.io.interrupt_mask_upper = value & 0xe0;
     return;
   }
   {
